@@ -466,3 +466,9 @@ T("C05", "twin-both-nested-min", CONFIGS, "            trunc = min(\n           
 M("C15", "opsum-mul-reversed", OP, "            for op1 in self:\n                res.extend(op1 * other)", "            for op1 in self:\n                res.extend(other * op1)", ["operand-order"], "OpSum * list multiplies from the wrong side")
 T("C15", "twin-rmul-explicit", OP, "            return OpSum(other) * self\n        else:\n            raise TypeError(f\"Unknwon type {type(other)}\")", "            return OpSum([item * self for item in other])\n        else:\n            raise TypeError(f\"Unknwon type {type(other)}\")",
   "list * Op written as an explicit comprehension")
+
+HQC = "renormalizer/model/h_qc.py"
+M("C17", "jw-permute-count", HQC, "n_permute += n_non_sigma_z", "n_permute += 1", ["jw-simplify"], "every sigma_z counted once instead of once per ladder operator it passes")
+M("C17", "jw-qn-odd-orbital", HQC, 'qn_dict1 = {"+": [0, -1], "-": [0, 1], "Z": [0, 0]}', 'qn_dict1 = {"+": [0, 1], "-": [0, -1], "Z": [0, 0]}', ["jw-simplify"], "charges of beta-orbital ladder operators inverted")
+M("C17", "jw-string-short", HQC, 'sigma_z_list = [Op("Z", l) for l in range(j)]', 'sigma_z_list = [Op("Z", l) for l in range(j - 1)]', ["jw-simplify"], "Jordan-Wigner string misses the neighbouring orbital")
+T("C17", "twin-jw-count-form", HQC, "        n_sigma_z = elem_op.split_symbol.count(\"Z\")", "        n_sigma_z = len([s for s in elem_op.split_symbol if s == \"Z\"])", "count written as a comprehension")
